@@ -266,6 +266,18 @@ def dup_edge_games():
                            transition_list=[[(0.5, 3), (0.5, 1)], [(1, 1)], [(1, 2)], t3, [(0.5, 1), (0.5, 2)],
                                             [(0.5, 5), (0.5, 2)]],
                            final_states=[1])
+    # the repeated entry is the state's own rewarded self-loop: losing or doubling its mass changes how long
+    # (and whether) the play stays there
+    for p, k in ((0.25, 2), (0.125, 3)):
+        rest = 1 - p * k
+        for pos in range(k + 1):
+            t3 = [(p, 3)] * k + [(rest / 2, 1)]
+            t3.insert(pos, (rest / 2, 5))
+            yield dict(rewards=[1, 0, 0, 2, 3, 7],
+                       players=[PR, PR, PR, PR, PR, PR],
+                       transition_list=[[(0.5, 3), (0.5, 1)], [(1, 1)], [(1, 2)], t3, [(0.5, 1), (0.5, 2)],
+                                        [(0.5, 5), (0.5, 2)]],
+                       final_states=[1])
 
 
 @st.composite
